@@ -56,7 +56,7 @@ MIN_HITS = {
         'layout:transposed': 30, 'layout:field-view': 20, 'order:swapped': 50, 'shape:0d': 50, 'shape:empty': 50,
         'shape:rank>=4': 30, 'dtype:bfloat16': 20, 'dtype:float16': 20, 'dtype:complex64': 20, 'dtype:uint64': 20,
         'dtype:bool': 20, 'depth:0': 20, 'depth:4': 20, 'reject:raised-serialize': 50, 'reject:raised-deserialize': 20,
-        'sqlite:clients': 150, 'state:checkpoints': 40, 'hit:failed-save': 25, 'hit:sqlite-overlapping-reads': 50,
+        'sqlite:clients': 150, 'state:checkpoints': 40, 'hit:failed-save': 25, 'hit:sqlite-overlapping-reads': 50, 'hit:sqlite-bulk': 6,
     },
     'thorough': {
         'mon:roundtrip': 12000, 'mon:reject': 3000, 'mon:sqlite': 3000, 'mon:state': 1000, 'mon:readonly': 12000,
@@ -66,7 +66,7 @@ MIN_HITS = {
         'shape:0d': 1000, 'shape:empty': 1000, 'shape:rank>=4': 500, 'dtype:bfloat16': 300, 'dtype:float16': 300,
         'dtype:complex64': 300, 'dtype:uint64': 300, 'dtype:bool': 300, 'depth:0': 300, 'depth:4': 300,
         'reject:raised-serialize': 1000, 'reject:raised-deserialize': 300, 'sqlite:clients': 3000,
-        'state:checkpoints': 700, 'hit:failed-save': 400, 'hit:sqlite-overlapping-reads': 900,
+        'state:checkpoints': 700, 'hit:failed-save': 400, 'hit:sqlite-overlapping-reads': 900, 'hit:sqlite-bulk': 40,
     },
 }
 TECHNIQUE = ('runtime monitoring: structural bitwise round-trip oracle over generated nested structures, reject-or-equal '
@@ -852,6 +852,57 @@ class _Unpicklable:
     raise _SaveFault('leaf cannot be pickled')
 
 
+def run_sqlite_bulk(ctx, sfd, rng, scratch, case_no):
+  """Thousands of clients written by one add_many call: ids, sizes and spot-checked examples must read back identical."""
+  d = tempfile.mkdtemp(prefix='sqb-', dir=scratch)
+  fd = None
+  try:
+    path = os.path.join(d, 'bulk.sqlite')
+    n = int([1001, 1024, 1500, 2049, 3500, 4097][case_no % 6]) + int(rng.randint(0, 3))
+    ids = sorted({b'u%06d' % int(v) for v in rng.choice(10**6, size=n, replace=False)})
+    rows = [int(v) for v in rng.randint(0, 3, size=len(ids))]
+    data = {c: {'x': (np.arange(r, dtype=np.int32) + 3 * j), 'tag': np.array([c] * r, dtype=object)} for j, (c, r) in enumerate(zip(ids, rows))}
+    as_gen = bool(rng.rand() < 0.5)
+    wit = {'family': 'sqlite-bulk', 'clients': len(ids), 'add_many_input': 'generator' if as_gen else 'list'}
+
+    def build():
+      with sfd.SQLiteFederatedDataBuilder(path) as b:
+        b.add_many(((c, data[c]) for c in ids) if as_gen else [(c, data[c]) for c in ids])
+
+    if not ctx.call('SQLiteFederatedDataBuilder', build, witness=wit).ok:
+      return ctx.case_done(None, sample=wit, klass=['sqlite-bulk-build-raised'])
+    r = ctx.call('SQLiteFederatedData', sfd.SQLiteFederatedData.new, path, witness=wit)
+    if not r.ok:
+      return ctx.case_done(None, sample=wit, klass=['sqlite-bulk-read-raised'])
+    fd = r.value
+    ctx.count('hit:sqlite-bulk')
+    r = ctx.call('SQLiteFederatedData', lambda: (fd.num_clients(), list(fd.client_ids()), list(fd.client_sizes())), witness=wit)
+    if r.ok:
+      nc, got_ids, got_sizes = r.value
+      missing = sorted(set(ids) - set(got_ids))
+      ctx.check(nc == len(ids), 'sqlite/num-clients', f'num_clients() = {nc}, wrote {len(ids)}', wit)
+      ctx.check(got_ids == ids, 'sqlite/client-ids', f'client_ids() returns {len(got_ids)} of {len(ids)} written ids; first missing at '
+                f'input positions {[ids.index(m) for m in missing[:5]]}', wit)
+      ctx.check(got_sizes == list(zip(ids, rows)), 'sqlite/client-sizes', 'client_sizes() differs from the written row counts', wit)
+    for pos in sorted({0, len(ids) - 1} | {q for q in (999, 1000, 1001, 1023, 1024, 2000, 2001, 2002, 2048, 3002, 3003, 4096) if q < len(ids)}):
+      c = ids[pos]
+      r = ctx.call('SQLiteFederatedData', lambda c=c: fd.get_client(c).all_examples(), witness={**wit, 'client': c, 'input_position': pos})
+      if r.ok:
+        mism = []
+        compare(data[c], r.value, f'get_client[{c!r}]', mism)
+        ctx.count('mon:sqlite')
+        ctx.check(not mism, 'sqlite/bulk-client-differs', f'client at input position {pos} reads back different: ' +
+                  '; '.join(f'{p_}: {dt}' for p_, _, dt, _, _ in mism[:3]), {**wit, 'client': c})
+    ctx.case_done(('sqlite-bulk', len(ids), as_gen), sample=wit, klass=['sqlite-bulk'])
+  finally:
+    try:
+      if fd is not None:
+        fd._connection.close()  # pylint: disable=protected-access
+    except Exception:  # pylint: disable=broad-except
+      pass
+    shutil.rmtree(d, ignore_errors=True)
+
+
 def _install_state_class(fedjax):
   mod = sys.modules[__name__]
   if hasattr(mod, 'C16State'):
@@ -1054,6 +1105,8 @@ def run(ctx):
       run_reject(ctx, ser, rng, depth=(idx // len(_UNSUPPORTED)) % 5, kind=kind)
     for cid, rng in ctx.cases('sqlite', n_sq):
       run_sqlite(ctx, sfd, rng, scratch)
+    for cid, rng in ctx.cases('sqlite-bulk', 8 if ctx.quick else 48):
+      run_sqlite_bulk(ctx, sfd, rng, scratch, int(cid.split('/')[1]))
     for cid, rng in ctx.cases('state', n_st):
       run_state(ctx, fedjax, rng, scratch)
   finally:
